@@ -33,4 +33,6 @@ EXTRAS = [
     lambda rep, fb, tier: __import__("vf.rules.pyrules3", fromlist=["x"]).rule_py_raw_axis(rep),
     lambda rep, fb, tier: __import__("vf.rules.pyrules3", fromlist=["x"]).rule_py_transform_returns(rep),
     lambda rep, fb, tier: __import__("vf.rules.pyrules3", fromlist=["x"]).rule_py_searchsorted_siblings(rep),
+    lambda rep, fb, tier: __import__("vf.rules.pyrules4", fromlist=["x"]).rule_py_pack_reenters(rep),
+    lambda rep, fb, tier: __import__("vf.rules.pyrules4", fromlist=["x"]).rule_py_depth_relative_wrap(rep),
 ]
